@@ -376,6 +376,37 @@ func c13Cases(thorough bool) []c13Case {
 			cs = append(cs, c13Case{Name: "L7 overwrite, subset of targets pre-existing", TMS: rd, IDs: ids, Page: 2, Overwrite: true, Existing: true, ExistingIDs: pre, Path: "out.gpkg", Src: s2b})
 		}
 	}
+	// L8: table order: every ordering of every subset of >= 2 of the four tables (polygon, multipolygon, point, line);
+	// plus sources in which one of the tables has no rows
+	{
+		all := []string{"parcels", "regions", "pois", "roads"}
+		var perms func(rest, cur []string)
+		perms = func(rest, cur []string) {
+			if len(cur) >= 2 {
+				src := c13Source{Tables: append([]string{}, cur...), Polys: []string{"pinch", "small", "plain"}, Multis: []string{"m-two", "m-collapse"}, Points: 2, Lines: 2}
+				cs = append(cs, c13Case{Name: "L8 table order", TMS: rd, IDs: []int{5, 8}, Page: 2, Path: "o.gpkg", Src: src})
+			}
+			for i, t := range rest {
+				nr := append(append([]string{}, rest[:i]...), rest[i+1:]...)
+				perms(nr, append(cur, t))
+			}
+		}
+		perms(all, nil)
+		for _, empty := range all {
+			src := c13Source{Tables: []string{"pois", "parcels", "roads", "regions"}, Polys: []string{"pinch", "plain"}, Multis: []string{"m-two"}, Points: 2, Lines: 2}
+			switch empty {
+			case "parcels":
+				src.Polys = nil
+			case "regions":
+				src.Multis = nil
+			case "pois":
+				src.Points = 0
+			case "roads":
+				src.Lines = 0
+			}
+			cs = append(cs, c13Case{Name: "L8 table without rows", TMS: rd, IDs: []int{5, 8}, Page: 2, Path: "o.gpkg", Src: src})
+		}
+	}
 	// L4: family of sources: every sequence of <= 2 polygon kinds x every sequence of <= 1 multipolygon kinds, plus point/line tables
 	pk := []string{"plain", "pinch", "small", "tiny", "hole", "cw"}
 	mk := []string{"m-two", "m-mixed", "m-collapse"}
@@ -497,6 +528,6 @@ func runC13() {
 		"states": tot.States, "transitions": tot.States, "traces_validated_against_impl": 0, "samples": tot.Samples,
 		"evaluations": tot.States, "distinct_nontrivial": tot.Nontrivial, "exhaustive": tot.Exhaustive && int(tot.States) == len(cases),
 		"runs_per_sub_lattice": tot.PerLattice,
-		"rule":                 "state = one invocation of the real texel binary; the lattice is the union of fully enumerated sub-lattices: L1 id lists (single, descending, three, duplicate) x keep x reverse x page size {1,2,default}; L2 all 8 flag combinations (command line and environment) on a source with an outside-grid feature and on an in-grid source; L3 5 target path shapes x {fresh, overwrite, pre-existing + overwrite} x ids; L7 overwrite with every non-empty proper subset of the requested targets pre-existing x three id lists; L4 every sequence of <= 2 polygon kinds x <= 1 (thorough 2) multipolygon kinds with line table; L6 WebMercatorQuad and WorldMercatorWGS84Quad x two id lists x keep/reverse; thorough L5 page sizes x four tables; each run is compared file by file, table by table, row by row with the reference; non-trivial = sources with at least one (multi)polygon",
+		"rule":                 "state = one invocation of the real texel binary; the lattice is the union of fully enumerated sub-lattices: L1 id lists (single, descending, three, duplicate) x keep x reverse x page size {1,2,default}; L2 all 8 flag combinations (command line and environment) on a source with an outside-grid feature and on an in-grid source; L3 5 target path shapes x {fresh, overwrite, pre-existing + overwrite} x ids; L7 overwrite with every non-empty proper subset of the requested targets pre-existing x three id lists; L8 every ordering of every subset of >= 2 of the four table kinds, and sources with one table without rows; L4 every sequence of <= 2 polygon kinds x <= 1 (thorough 2) multipolygon kinds with line table; L6 WebMercatorQuad and WorldMercatorWGS84Quad x two id lists x keep/reverse; thorough L5 page sizes x four tables; each run is compared file by file, table by table, row by row with the reference; non-trivial = sources with at least one (multi)polygon",
 	})
 }
